@@ -9,6 +9,7 @@ package types
 // block.go — the block gas limit is a function of the block gas meter and the consensus parameters only (C01), and
 // reading it never fails (C20).
 //@ func BlockGasLimit(ctx sdk.Context) uint64
+//@   deterministic[C01.no_node_local_source]
 //@   modifies nothing
 //@   ensures[C01.block_gas_limit_from_header] (ctx.BlockGasMeter() != nil && gmLimit(payload(ctx.BlockGasMeter())) != 0) ==> result == gmLimit(payload(ctx.BlockGasMeter()))
 //@   ensures[C01.block_gas_limit_from_params] !(ctx.BlockGasMeter() != nil && gmLimit(payload(ctx.BlockGasMeter())) != 0) ==> result == (ctx.ConsensusParams().Block == nil ? 0 : (ctx.ConsensusParams().Block.MaxGas == -1 ? pow2(64) - 1 : (ctx.ConsensusParams().Block.MaxGas > 0 ? ctx.ConsensusParams().Block.MaxGas : 0)))
